@@ -76,7 +76,7 @@ package util
 //@   ensures [size] err == nil ==> n == maxLen
 //@   ensures [terminated] err == nil ==> buffer[maxLen-1] == 0
 //@   assigns buffer[0:maxLen]
-//@   determines buffer[0:maxLen]
+//@   determines buffer[0:maxLen] when err == nil
 //@   loop 0 invariant len(encoded) <= i && (i <= int(maxLen) || i == len(encoded))
 //@   loop 0 invariant forall k in len(encoded)..i :: buffer[k] == 0
 //@   loop 0 decreases int(maxLen) - i
